@@ -70,6 +70,13 @@ def le32 (b : List Nat) : Nat := b.getD 0 0 + 256 * b.getD 1 0 + 65536 * b.getD 
 
 /-! ### factory -/
 
+/-- `proto.Component` with scale 1 and offset 0 (the arithmetic of other scales is C05's subject) -/
+structure Comp where
+  fieldNum : Nat
+  accumulate : Bool
+  bits : Nat
+  deriving DecidableEq, Repr, Inhabited
+
 /-- what the decoder reads of the `*proto.FieldBase` a factory returns -/
 structure FieldInfo where
   /-- `Name != factory.NameUnknown` -/
@@ -79,10 +86,12 @@ structure FieldInfo where
   isBool : Bool
   array : Bool
   accumulate : Bool
+  /-- `Components` (no sub-fields; scale 1, offset 0 on the field and on every component) -/
+  comps : List Comp := []
   deriving DecidableEq, Repr, Inhabited
 
 /-- `createUnknownField(num)`: zero base type (enum), zero profile type -/
-def FieldInfo.unknown : FieldInfo := ⟨false, 0, false, false, false⟩
+def FieldInfo.unknown : FieldInfo := ⟨false, 0, false, false, false, []⟩
 
 structure FacEntry where
   mesgNum : Nat
@@ -417,6 +426,168 @@ def collectVals (mesgNum fieldNum : Nat) (v : Value) (acc : List AccEntry) : Lis
   | .sliceUint8 vs | .sliceUint16 vs | .sliceInt32 vs | .sliceUint32 vs | .sliceInt64 vs | .sliceUint64 vs => manyU vs
   | _ => acc
 
+/-! ### component expansion (`expandComponents`, `decoder/bits.go`, `Accumulator.Accumulate`) -/
+
+/-- `uint64(intN(v))` / `uint64(uintN(v))` of an integer value, as `makeBits` stores it; `none` for anything else
+(floats: the conversion of out-of-range values is platform-defined — not in the factories of the tie; strings, bools, invalid) -/
+def scalarBits : Value → Option Nat
+  | .int8 v => some (sext 8 v)
+  | .uint8 v => some (v % 2 ^ 8)
+  | .int16 v => some (sext 16 v)
+  | .uint16 v => some (v % 2 ^ 16)
+  | .int32 v => some (sext 32 v)
+  | .uint32 v => some (v % 2 ^ 32)
+  | .int64 v => some (v % 2 ^ 64)
+  | .uint64 v => some (v % 2 ^ 64)
+  | _ => none
+
+/-- `storeFromSlice`: elements OR-ed into 32 words of 64 bits, `size` bytes apart (a sign-extended element spills into
+the bytes above it, as in the code); elements beyond the 32 words are dropped -/
+def storeFromSlice (size : Nat) (elems : List Nat) : List Nat :=
+  let rec go : List Nat → Nat → Nat → List Nat → List Nat
+    | [], _, _, st => st
+    | e :: es, index, pos, st =>
+      if index ≥ 32 then st else
+      let st := st.set index (((st.getD index 0) ||| ((e <<< (pos * 8)) % 2 ^ 64)))
+      let pos := pos + size
+      if pos = 8 then go es (index + 1) 0 st else go es index pos st
+  go elems 0 0 (List.replicate 32 0)
+
+/-- `makeBits` -/
+def makeBits (v : Value) : Option (List Nat) :=
+  match scalarBits v with
+  | some x => some ((List.replicate 32 0).set 0 x)
+  | none =>
+    match v with
+    | .sliceInt8 vs => some (storeFromSlice 1 (vs.map (sext 8)))
+    | .sliceUint8 vs => some (storeFromSlice 1 (vs.map (· % 2 ^ 8)))
+    | .sliceInt16 vs => some (storeFromSlice 2 (vs.map (sext 16)))
+    | .sliceUint16 vs => some (storeFromSlice 2 (vs.map (· % 2 ^ 16)))
+    | .sliceInt32 vs => some (storeFromSlice 4 (vs.map (sext 32)))
+    | .sliceUint32 vs => some (storeFromSlice 4 (vs.map (· % 2 ^ 32)))
+    | .sliceInt64 vs => some (storeFromSlice 8 (vs.map (· % 2 ^ 64)))
+    | .sliceUint64 vs => some (storeFromSlice 8 (vs.map (· % 2 ^ 64)))
+    | _ => none
+
+/-- `x << k` / `x >> k` on uint64 with a shift count that is a byte expression (counts ≥ 64 give 0) -/
+def shl64 (x k : Nat) : Nat := if k ≥ 64 then 0 else (x <<< k) % 2 ^ 64
+def shr64 (x k : Nat) : Nat := if k ≥ 64 then 0 else x >>> k
+
+/-- `(*bits).Pull(bitsize)`: the value pulled and the store afterwards -/
+def pull (st : List Nat) (bitsize : Nat) : Nat × List Nat :=
+  let mask := (shl64 1 bitsize + 2 ^ 64 - 1) % 2 ^ 64
+  let val := (st.getD 0 0 &&& mask) % 2 ^ 32
+  let st := st.set 0 (shr64 (st.getD 0 0) bitsize)
+  let st := (List.range 31).foldl (fun st j =>
+    let i := j + 1
+    if st.getD i 0 = 0 then st else
+    let hi := st.getD i 0 &&& mask
+    let lo := shl64 hi ((64 + 256 - bitsize) % 256)
+    (st.set (i - 1) (st.getD (i - 1) 0 ||| lo)).set i (shr64 (st.getD i 0) bitsize)) st
+  (val, st)
+
+/-- `Accumulator.Accumulate` -/
+def accAccumulate (acc : List AccEntry) (mesgNum fieldNum val bits : Nat) : Nat × List AccEntry :=
+  match acc.find? (fun e => e.mesgNum == mesgNum && e.fieldNum == fieldNum) with
+  | some e =>
+    let mask := (shl64 1 bits % 2 ^ 32 + 2 ^ 32 - 1) % 2 ^ 32
+    let v := (e.value + ((val + 2 ^ 32 - e.last) % 2 ^ 32 &&& mask)) % 2 ^ 32
+    (v, acc.map (fun x => if x.mesgNum == mesgNum && x.fieldNum == fieldNum then { x with value := v, last := val } else x))
+  | none => (val, acc ++ [⟨mesgNum, fieldNum, val, val⟩])
+
+/-- `convertUint32ToValue` -/
+def convertUint32ToValue (val bt : Nat) : Value :=
+  if bt = btSint8 then .int8 (val % 2 ^ 8)
+  else if bt = btEnum ∨ bt = btByte ∨ bt = btUint8 ∨ bt = btUint8z then .uint8 (val % 2 ^ 8)
+  else if bt = btSint16 then .int16 (val % 2 ^ 16)
+  else if bt = btUint16 ∨ bt = btUint16z then .uint16 (val % 2 ^ 16)
+  else if bt = btSint32 then .int32 val
+  else if bt = btUint32 ∨ bt = btUint32z then .uint32 val
+  else if bt = btSint64 then .int64 val
+  else if bt = btUint64 ∨ bt = btUint64z then .uint64 val
+  else if bt = btFloat32 then .float32 (natToF32 val)
+  else if bt = btFloat64 then .float64 (natToF64 val)
+  else .invalid
+
+/-- `valueAppend(slice, elem)`: a slice of another type reads as nil -/
+def valueAppend (slice elem : Value) : Value :=
+  match elem with
+  | .int8 x => .sliceInt8 ((match slice with | .sliceInt8 l => l | _ => []) ++ [x])
+  | .uint8 x => .sliceUint8 ((match slice with | .sliceUint8 l => l | _ => []) ++ [x])
+  | .int16 x => .sliceInt16 ((match slice with | .sliceInt16 l => l | _ => []) ++ [x])
+  | .uint16 x => .sliceUint16 ((match slice with | .sliceUint16 l => l | _ => []) ++ [x])
+  | .int32 x => .sliceInt32 ((match slice with | .sliceInt32 l => l | _ => []) ++ [x])
+  | .uint32 x => .sliceUint32 ((match slice with | .sliceUint32 l => l | _ => []) ++ [x])
+  | .int64 x => .sliceInt64 ((match slice with | .sliceInt64 l => l | _ => []) ++ [x])
+  | .uint64 x => .sliceUint64 ((match slice with | .sliceUint64 l => l | _ => []) ++ [x])
+  | .float32 x => .sliceFloat32 ((match slice with | .sliceFloat32 l => l | _ => []) ++ [x])
+  | .float64 x => .sliceFloat64 ((match slice with | .sliceFloat64 l => l | _ => []) ++ [x])
+  | _ => slice
+
+/-- index of the last field numbered `num` (`for j := len(mesg.Fields) - 1; j >= 0; j--`) -/
+def lastIdx (fields : List DField) (num : Nat) : Option Nat :=
+  (fields.zipIdx.filter (fun p => p.1.num == num)).getLast?.map (·.2)
+
+/-- state of the loop over the components of one field: stopped by the `break`, the bit store, the fields, the accumulator -/
+structure ExpSt where
+  stopped : Bool
+  bits : List Nat
+  fields : List DField
+  acc : List AccEntry
+
+/-- one component, up to the recursive expansion of its destination field: the new loop state, and the value and
+factory entry of the destination (none: the loop has stopped) -/
+def expandOne (fac : Factory) (mesgNum : Nat) (many : Bool) (c : Comp) (x : ExpSt) : ExpSt × Option (Value × FieldInfo) :=
+  if x.stopped then (x, none) else
+  let info := fac.create mesgNum c.fieldNum
+  let (val, bits) := pull x.bits c.bits
+  if val = 0 ∧ many then ({ x with stopped := true, bits := bits }, none) else
+  let (val, acc) := if c.accumulate then accAccumulate x.acc mesgNum c.fieldNum val c.bits else (val, x.acc)
+  let value := convertUint32ToValue val info.bt
+  let fields := match lastIdx x.fields c.fieldNum with
+    | some j =>
+      x.fields.modify j (fun f => { f with value := if f.array then valueAppend f.value value else value })
+    | none =>
+      x.fields ++ [⟨c.fieldNum, info.bt, info.known, info.isBool, info.array,
+        if info.array then valueAppend .invalid value else value, true⟩]
+  ({ stopped := false, bits := bits, fields := fields, acc := acc }, some (value, info))
+
+/-- `expandComponents(mesg, containingValue, baseType, components)` on the field list and the accumulator.
+`fuel` bounds the nesting (a component's destination field may have components itself); `none`: the fuel ran out —
+the factory's components are cyclic and the real code would recurse without end. -/
+def expandComps (fac : Factory) (mesgNum : Nat) : Nat → Value → Nat → List Comp → List DField × List AccEntry →
+    Option (List DField × List AccEntry)
+  | 0, _, _, comps, st => if comps.isEmpty then some st else none
+  | fuel + 1, v, bt, comps, st =>
+    if comps.isEmpty then some st
+    else if !valid v bt then some st
+    else match makeBits v with
+      | none => some st
+      | some bits =>
+        let many := decide (comps.length > 1)
+        (comps.foldl (fun (r : Option ExpSt) c =>
+          match r with
+          | none => none
+          | some x =>
+            match expandOne fac mesgNum many c x with
+            | (x', none) => some x'
+            | (x', some (value, info)) =>
+              match expandComps fac mesgNum fuel value info.bt info.comps (x'.fields, x'.acc) with
+              | none => none
+              | some (fields, acc) => some { x' with fields := fields, acc := acc })
+          (some ⟨false, bits, st.1, st.2⟩)).map (fun x => (x.fields, x.acc))
+
+/-- the second half of `decodeFields`: every decoded field (not the ones expansion adds) is expanded in turn -/
+def expandAll (fac : Factory) (mesgNum : Nat) : Nat → Nat → List DField × List AccEntry → Option (List DField × List AccEntry)
+  | 0, _, st => some st
+  | n + 1, i, (fields, acc) =>
+    match fields[i]? with
+    | none => some (fields, acc)
+    | some f =>
+      match expandComps fac mesgNum 256 f.value f.bt (fac.create mesgNum f.num).comps (fields, acc) with
+      | none => none
+      | some st => expandAll fac mesgNum n (i + 1) st
+
 /-! ### data records -/
 
 /-- `d.timestamp = timestamp; d.lastTimeOffset = byte(timestamp & CompressedTimeMask)` -/
@@ -551,6 +722,11 @@ def decodeData (header : Nat) (s : St) : Res (St × Option Event) := do
   | some d =>
     let (s, pre) := if compressed then compressedTs header d s else (s, [])
     let (fields, s) ← decodeFields d d.fields pre s
+    let (fields, s) ← (if s.o.exp then
+        match expandAll s.o.fac d.mesgNum fields.length 0 (fields, s.q.acc) with
+        | some (fields, acc) => pure (fields, { s with q := { s.q with acc := acc } })
+        | none => .hang
+      else pure (fields, s) : Res (List DField × St))
     let s := noteMesg d.mesgNum fields s
     let (devs, s) ← (if d.devs.isEmpty then pure ([], s) else decodeDevFields d d.devs [] s : Res (List DDev × St))
     let m : Msg := ⟨header, d.mesgNum, fields, devs⟩
